@@ -44,26 +44,33 @@ def decode (b : Nat) : Option Dy :=
 
 def isFinite (b : Nat) : Bool := (b / 2 ^ 52) % 2048 != 2047
 
+/-- `m / 2^sh` rounded to nearest, ties to even (`sh ≥ 1`) -/
+def rneShift (m sh : Nat) : Nat :=
+  let fl := m / 2 ^ sh
+  let rem := m % 2 ^ sh
+  let half := 2 ^ (sh - 1)
+  if half < rem ∨ (rem = half ∧ fl % 2 = 1) then fl + 1 else fl
+
+/-- exponent of the unit in the last place of the rounded result of `m · 2^e` (`m ≠ 0`): 53 significant
+bits, but never below the subnormal quantum `2^-1074` -/
+def quantum (m : Nat) (e : Int) : Int := max (((Nat.log2 m + 1 : Nat) : Int) + e - 53) (-1074)
+
+/-- the integer significand of the rounded result: `m · 2^e ≈ roundSig m e · 2^(quantum m e)` -/
+def roundSig (m : Nat) (e : Int) : Nat :=
+  let q := quantum m e
+  if q ≤ e then m * 2 ^ (e - q).toNat else rneShift m (q - e).toNat
+
+/-- the uniform encoding `(q + 1074) · 2^52 + m'` covers subnormals (`q = -1074`, `m' < 2^52`), normals
+(`2^52 ≤ m' < 2^53`: the implicit bit adds one to the exponent field) and the carry `m' = 2^53` into the
+next binade; `infBits` on overflow -/
+def encode (q : Int) (m' : Nat) : Nat :=
+  let bits := (q + 1074).toNat * 2 ^ 52 + m'
+  if infBits ≤ bits then infBits else bits
+
 /-- round-to-nearest-even of the magnitude `m · 2^e` to the binary64 grid; the result is the 63-bit
-magnitude pattern (`infBits` on overflow).  `q` is the exponent of the unit in the last place of the
-result: 53 significant bits, but never below the subnormal quantum `2^-1074`.  The uniform encoding
-`(q + 1074) · 2^52 + m'` covers subnormals (`q = -1074`, `m' < 2^52`), normals (`2^52 ≤ m' < 2^53`: the
-implicit bit adds one to the exponent field) and the carry `m' = 2^53` into the next binade. -/
+magnitude pattern -/
 def roundMag (m : Nat) (e : Int) : Nat :=
-  if m = 0 then 0
-  else
-    let L : Int := ((Nat.log2 m + 1 : Nat) : Int)
-    let q : Int := max (L + e - 53) (-1074)
-    let m' : Nat :=
-      if q ≤ e then m * 2 ^ (e - q).toNat
-      else
-        let sh := (q - e).toNat
-        let fl := m / 2 ^ sh
-        let rem := m % 2 ^ sh
-        let half := 2 ^ (sh - 1)
-        if half < rem ∨ (rem = half ∧ fl % 2 = 1) then fl + 1 else fl
-    let bits := (q + 1074).toNat * 2 ^ 52 + m'
-    if infBits ≤ bits then infBits else bits
+  if m = 0 then 0 else encode (quantum m e) (roundSig m e)
 
 def pack (neg : Bool) (mag : Nat) : Nat := if neg then mag + 2 ^ 63 else mag
 
